@@ -5,6 +5,7 @@ import (
 	"go/ast"
 	"go/token"
 	"go/types"
+	"golang.org/x/tools/go/cfg"
 	"os"
 	"strings"
 
@@ -116,48 +117,84 @@ func checkAckedIsAccepted(p *Prog, r *Report, rule string) {
 		lt(p.Diff(sn, add(rcvNxt, rcvWnd)), tConst(0)).Key(): true,
 		le(tConst(0), p.Diff(sn, rcvNxt)).Key():              true,
 	}
-	// the first branch whose true edge returns without touching the buffers
-	found := false
-	for _, b := range c.live {
-		ct := c.CondTerm(b)
-		if ct == nil || len(b.Succs) != 2 {
-			continue
-		}
-		tb := b.Succs[0]
-		isRefusal := false
-		for _, nd := range tb.Nodes {
-			if _, ok := nd.(*ast.ReturnStmt); ok && c.BlockDominates(c.Entry(), b) && len(c.DominatingConds(Point{b, 0})) == 0 {
-				isRefusal = true
-			}
-		}
-		if !isRefusal {
-			continue
-		}
-		found = true
-		fs := fa.At(Point{b, len(b.Nodes) - 1})
-		got := map[string]bool{}
-		for _, a := range Conjuncts(Negate(p.ExpandHelpers(ct))) {
-			got[fs.Resolve(a).Key()] = true
-		}
-		same := len(got) == len(want)
-		for k := range want {
-			if !got[k] {
-				same = false
-			}
-		}
-		var gs []string
-		for k := range got {
-			gs = append(gs, pretty(k))
-		}
-		if same {
-			r.ok(rule, pd.Name, p.Pos(b.Nodes[len(b.Nodes)-1]), "acceptance window of parse_data", "accepts exactly sn in [rcv_nxt, rcv_nxt + rcv_wnd): every acknowledged, not yet delivered segment is stored")
-		} else {
-			r.bad(rule, pd.Name, p.Pos(b.Nodes[len(b.Nodes)-1]), "acceptance window of parse_data", "parse_data accepts under "+strings.Join(gs, " ∧ ")+", but Input acknowledges everything below rcv_nxt + rcv_wnd: a segment in the gap is acknowledged and then dropped — the sender frees it and never retransmits (permanent hole)", "")
-		}
-		break
+	// Every way through parse_data that does not store the segment must leave by a
+	// legitimate refusal: beyond the window, below rcv_nxt (already delivered), or a
+	// duplicate of a stored segment. Edges taken for one of these reasons are removed;
+	// any remaining path from the entry to the exit that avoids the store is a segment
+	// that Input has acknowledged and that is then dropped.
+	_ = want
+	allowed := map[string]bool{
+		le(tConst(0), p.Diff(sn, add(rcvNxt, rcvWnd))).Key(): true,
+		lt(p.Diff(sn, rcvNxt), tConst(0)).Key():              true,
 	}
-	if !found {
-		r.bad(rule, pd.Name, p.Pos(pd.Node), "acceptance window of parse_data", "parse_data has no initial window test", "")
+	fRcvBuf := p.Field("KCP", "rcv_buf")
+	isAllowed := func(t *Term, fs *FactSet) bool {
+		t = fs.Resolve(p.ExpandHelpers(t))
+		if allowed[t.Key()] {
+			return true
+		}
+		// duplicate test: rcv_buf.Has(sn)
+		if t.Op == "call" && t.Obj != nil && t.Obj.Name() == "Has" && len(t.Args) == 2 {
+			if _, ok := fieldBase(t.Args[0], fRcvBuf); ok && fs.Resolve(t.Args[1]).Key() == sn.Key() {
+				return true
+			}
+		}
+		return false
+	}
+	var disjuncts func(t *Term) []*Term
+	disjuncts = func(t *Term) []*Term {
+		if t.Op == "||" {
+			var out []*Term
+			for _, a := range t.Args {
+				out = append(out, disjuncts(a)...)
+			}
+			return out
+		}
+		return []*Term{t}
+	}
+	edgeIsRefusal := func(from, to *cfg.Block) bool {
+		ct := c.CondTerm(from)
+		if ct == nil || len(from.Succs) != 2 {
+			return false
+		}
+		ec := ct
+		if to == from.Succs[1] {
+			ec = Negate(ct)
+		}
+		fs := fa.At(Point{from, len(from.Nodes) - 1})
+		// some conjunct of the edge condition is a disjunction of allowed reasons only
+		for _, cj := range Conjuncts(ec) {
+			all := true
+			for _, d := range disjuncts(cj) {
+				if !isAllowed(d, fs) {
+					all = false
+				}
+			}
+			if all {
+				return true
+			}
+		}
+		return false
+	}
+	isStore := func(n ast.Node, _ Point) bool {
+		f := false
+		inspectShallow(n, func(x ast.Node) bool {
+			if call, ok := x.(*ast.CallExpr); ok {
+				if cl := p.Callee(call); cl != nil && isExtFunc(cl, "container/heap", "", "Push") && len(call.Args) == 2 {
+					if _, ok := fieldBase(p.Term(call.Args[0]), fRcvBuf); ok && p.Term(call.Args[1]).Op == "var" && p.Term(call.Args[1]).Obj == seg {
+						f = true
+					}
+				}
+			}
+			return true
+		})
+		return f
+	}
+	res := c.FindPath(PathQuery{From: Point{c.Entry(), 0}, IsBarrier: isStore, ExitIsTarget: true, EdgeOK: func(from, to *cfg.Block) bool { return !edgeIsRefusal(from, to) }})
+	if res.Found {
+		r.bad(rule, pd.Name, p.Pos(pd.Node), "acceptance window of parse_data", "a path through parse_data drops the segment for a reason other than 'outside [rcv_nxt, rcv_nxt + rcv_wnd)' or 'duplicate', but Input has already acknowledged it: the sender frees it and never retransmits (permanent hole in the stream)", c.DescribePath(res.Path))
+	} else {
+		r.ok(rule, pd.Name, p.Pos(pd.Node), "acceptance window of parse_data", "every path that does not store the segment leaves by an out-of-window or duplicate refusal: every acknowledged, not yet delivered segment is stored")
 	}
 }
 
@@ -171,7 +208,23 @@ func checkC02(p *Prog, r *Report) {
 	r.rule("C02.A6", "UDPSession.update re-submits itself on every path of the not-closed arm with the delay returned by flush", 1)
 	r.rule("C02.A7", "no blocking operation (channel operation outside a select with default, Sleep, WaitN, WaitGroup.Wait, socket I/O) is reachable while UDPSession.mu is held; exemptions: the user callback of Control and the socket-option setters", 2)
 	r.rule("C02.A7b", "every function that acquires a mutex releases it on every return path or defers the release", 1)
+	r.rule("C02.A9", "the reorder heap releases the segment rcv_nxt when it is present: its comparator orders sequence numbers through the signed difference, also across the 32-bit wrap (= C12.K3)", 1)
 	r.rule("C02.A8", "Input calls flush(IKCP_FLUSH_FULL) whenever parse_una removed a segment or parse_fastack reported a hit", 1)
+	{
+		sub := newReport("C12", r.Tier)
+		sub.curCfg = r.curCfg
+		checkC12(p, sub)
+		for _, o := range sub.Obs {
+			if o.Rule != "C12.K3" || !strings.Contains(o.Construct, "segmentHeap") {
+				continue
+			}
+			if o.Status == Discharged {
+				r.ok("C02.A9", o.Func, o.Pos, o.Construct, o.Detail)
+			} else {
+				r.bad("C02.A9", o.Func, o.Pos, o.Construct, o.Detail+": once the window straddles the wrap the heap root is not rcv_nxt, the delivery queue stops advancing although every segment is present and acknowledged", o.Witness)
+			}
+		}
+	}
 
 	checkAckEveryPush(p, r, "C02.A1")
 	checkAckedIsAccepted(p, r, "C02.A1b")
